@@ -1,4 +1,92 @@
-From HP Require Import Base.Prelude KV.Types KV.FS KV.Handle KV.Run.
-Example C02_smoke : snapshot kv_init <> [].
-Proof. vm_compute. discriminate. Qed.
-Print Assumptions C02_smoke.
+(* C02 -- File handles behave like os.File: bytes, offsets, EOF, access modes, coherence.
+   Model: KV/Handle.v ([hstep] = one method call on handle i through the *File helpers; [read_at],
+   [write_at] = ReadBlobAt / writeBlobAt of keyvalue/file.go).  Coherence between handles is by
+   construction of the model: every handle of a file names the SAME cell of the heap as the store's
+   record, so what one handle writes is what every other handle reads next (checked against the code by
+   the correspondence on 1..3 handles per file, and against os.File by the oracle).
+   [ready h] = the handle has loaded its data without error and is not closed (true after its first
+   operation when the store does not fail). *)
+From HP Require Import Base.Prelude Base.Path KV.Types KV.FS KV.Handle KV.Run KV.HandleProofs.
+Open Scope N_scope.
+
+(* ReadAt/Read: exactly the file's current bytes at the offset; EOF iff the end was reached. *)
+Theorem C02_read_returns_current_bytes_and_eof : forall st h len off, ready h ->
+  let c := cell st (h_cell h) in
+  let size := Z.of_nat (length c) in
+  let '(st', _, d, e) := read_at st h len off in
+  st' = st
+  /\ ((size <= off)%Z -> d = [] /\ e = Some (Bare EEOF))
+  /\ ((0 <= off < size)%Z ->
+        d = sublist (Z.to_nat off) (Z.to_nat (Z.min (off + Z.of_nat len) size)) c
+        /\ (e = Some (Bare EEOF) <-> (size <= off + Z.of_nat len)%Z)
+        /\ (e = None \/ e = Some (Bare EEOF))).
+Proof. exact read_at_spec. Qed.
+Print Assumptions C02_read_returns_current_bytes_and_eof.
+
+(* WriteAt/Write: the whole buffer lands at the offset; a gap up to the offset is zero-filled. *)
+Theorem C02_write_stores_bytes_gaps_zero_filled : forall st h d off,
+  st_fault st = None -> ready h -> valid_path (h_path h) = true -> (h_cell h < length (st_heap st))%nat ->
+  has_flag (h_flag h) F_APPEND = false -> (0 <= off)%Z -> d <> [] ->
+  let c := cell st (h_cell h) in
+  let size := Z.of_nat (length c) in
+  let endi := (off + Z.of_nat (length d))%Z in
+  let '(st', _, n, e) := write_at st h d off in
+  e = None /\ n = Z.of_nat (length d)
+  /\ cell st' (h_cell h) = splice (if (size <? endi)%Z then c ++ zeros (Z.to_nat (endi - size)) else c) (Z.to_nat off) d.
+Proof. exact write_at_spec. Qed.
+Print Assumptions C02_write_stores_bytes_gaps_zero_filled.
+
+(* O_APPEND writes land at the current end, wherever the handle's offset is. *)
+Theorem C02_append_lands_at_end : forall st h d,
+  st_fault st = None -> ready h -> valid_path (h_path h) = true -> (h_cell h < length (st_heap st))%nat ->
+  has_flag (h_flag h) F_APPEND = true -> d <> [] -> forall off,
+  let c := cell st (h_cell h) in
+  let '(st', _, n, e) := write_at st h d off in
+  e = None /\ n = Z.of_nat (length d) /\ cell st' (h_cell h) = c ++ d.
+Proof. exact append_write_spec. Qed.
+Print Assumptions C02_append_lands_at_end.
+
+(* A read-only handle can never change any file's contents, whatever is called on it. *)
+Theorem C02_read_only_handle_never_writes : forall st i o h,
+  nth_error (st_handles st) i = Some h -> h_wrap h = WRO -> st_heap (fst (hstep st i o)) = st_heap st.
+Proof. exact ro_never_writes. Qed.
+Print Assumptions C02_read_only_handle_never_writes.
+
+(* A write-only handle never returns file bytes or directory entries. *)
+Theorem C02_write_only_handle_never_reads : forall st i h,
+  nth_error (st_handles st) i = Some h -> h_wrap h = WWO ->
+  (forall len, exists e, snd (hstep st i (HRead len)) = HRBytes [] (Some e))
+  /\ (forall len off, exists e, snd (hstep st i (HReadAt len off)) = HRBytes [] (Some e))
+  /\ (forall n, exists e, snd (hstep st i (HReadDir n)) = HREntries [] (Some e)).
+Proof. exact wo_never_reads. Qed.
+Print Assumptions C02_write_only_handle_never_reads.
+
+(* Rejected calls (closed handle, negative offset, truncating a directory) change nothing. *)
+Theorem C02_rejected_write_changes_nothing : forall st h d off,
+  h_closed h = true \/ (has_flag (h_flag h) F_APPEND = false /\ (off < 0)%Z) ->
+  let '(st', _, n, e) := write_at st h d off in st' = st /\ n = 0%Z /\ e <> None.
+Proof. exact rejected_write_preserves_bytes. Qed.
+Print Assumptions C02_rejected_write_changes_nothing.
+
+Theorem C02_rejected_truncate_changes_nothing : forall st h size,
+  h_closed h = true \/ is_dir (f_mode h) = true ->
+  let '(st', _, e) := file_truncate st h size in st' = st /\ e <> None.
+Proof. exact rejected_truncate_preserves_bytes. Qed.
+Print Assumptions C02_rejected_truncate_changes_nothing.
+
+(* Known deviation, as a theorem about the faithful model: a byte read on a DIRECTORY handle does not
+   fail (os.File: EISDIR) -- it reports end of file. *)
+Theorem C02_directory_read_refuted :
+  let st := fst (step (fst (step kv_init (Mkdir (S "d") 493))) (Open (S "d") 0 0)) in
+  snd (hstep st 0%nat (HRead 4)) = HRBytes [] (Some (Bare EEOF)).
+Proof. vm_compute. reflexivity. Qed.
+Print Assumptions C02_directory_read_refuted.
+
+(* Non-vacuity: two handles on one file; what the first writes the second reads. *)
+Example C02_two_handles_coherent :
+  let ops := [WriteFile (S "f") [1;2;3] 420; Open (S "f") 2 0; Open (S "f") 0 0;
+              H 0 (HWriteAt [9;9] 5%Z); H 1 (HReadAt 10 0%Z)] in
+  snd (last (run kv_init ops) (VOk, [])) <> [] /\
+  fst (last (run kv_init ops) (VOk, [])) = VH (HRBytes [1;2;3;0;0;9;9] (Some (Bare EEOF))).
+Proof. vm_compute. split; [discriminate|reflexivity]. Qed.
+Print Assumptions C02_two_handles_coherent.
